@@ -1,5 +1,5 @@
 (* Proofs for C14: the vector index of the model (Model/VecStore.v) holds exactly the
-   embeddings given to the active frames (Model/VecSpec.v), outside the two lossy situations. *)
+   embeddings given to the active frames (Model/VecSpec.v), for every history (repaired code). *)
 From MV Require Import Base.Prelude Base.Facts Model.Store Model.StoreSpec Model.VecStore Model.VecSpec Proofs.StoreProofs.
 Require Import ZifyBool ZifyNat ZifyN.
 Local Open Scope N_scope.
@@ -279,14 +279,6 @@ Proof.
   - apply IH in Hin. lia.
 Qed.
 
-Lemma new_docs_no_emb P : forall b pe, has_emb pe = false -> new_docs b P pe = [].
-Proof.
-  induction P as [|[seq e] P IH]; intros b pe H; [reflexivity|].
-  destruct pe as [|oe pe]; [reflexivity|]. cbn [new_docs]. unfold has_emb in H. cbn [existsb] in H.
-  apply orb_false_iff in H as [H1 H2]. destruct oe; [discriminate|]. cbn [opt_doc app].
-  destruct (is_insert e); apply IH; exact H2.
-Qed.
-
 Lemma new_docs_inserts Q : forall b qe,
   Forall (fun se => is_insert (snd se) = true) Q -> length qe = length Q -> new_docs b Q qe = docs_from b qe.
 Proof.
@@ -306,7 +298,6 @@ Definition Inv (s : store) (v : vst) (G : docs) : Prop :=
   (pending s <> [] -> dirty s = true) /\
   venabled v = is_some (vmem v) /\
   (vdisk v = vmem v \/ (vdisk v = None /\ vmem v = Some None)) /\
-  (has_emb (pemb v) = true -> venabled v = true) /\
   exists Gc, G = Gc ++ new_docs (len (committed s)) (pending s) (pemb v) /\
              Forall (fun d => fst d < len (committed s)) Gc /\
              mem_docs v = filter (actp (committed s)) Gc.
@@ -325,17 +316,18 @@ Qed.
 
 (* commit_from_records / recover_wal: every pending embedding reaches the index, entries of
    frames that stopped being active leave it, nothing else changes *)
-Lemma Inv_commit s v G extra :
-  Inv s v G -> Inv (do_commit s extra) (vcommit (committed s) (pending s) v) G.
+Lemma Inv_commit_core s v G extra :
+  Inv s v G -> (venabled v = false -> new_docs (len (committed s)) (pending s) (pemb v) = []) ->
+  Inv (do_commit s extra) (vcommit_unfixed (committed s) (pending s) v) G.
 Proof.
-  intros (HK & Hlen & Hrec & Hdirty & Hen & Hdisk & Hemb & Gc & HG & HGc & Hmem).
-  unfold do_commit, Inv, view, vcommit. cbn [committed pending dirty pending_inserts].
+  intros (HK & Hlen & Hrec & Hdirty & Hen & Hdisk & Gc & HG & HGc & Hmem) Hdis.
+  unfold do_commit, Inv, view, vcommit_unfixed. cbn [committed pending dirty pending_inserts].
   destruct (pending s) as [|se0 P0] eqn:EP.
   { (* nothing pending: the in-memory manifest is persisted as it is *)
     destruct (pemb v) eqn:Epe; [|discriminate]. cbn [combine fold_left delta_nonempty existsb venabled vmem vdisk pemb].
     unfold apply_records. cbn [fold_left rev resolve_orphans].
     split; [reflexivity|]. split; [reflexivity|]. split; [constructor|]. split; [congruence|].
-    split; [exact Hen|]. split; [left; reflexivity|]. split; [discriminate|].
+    split; [exact Hen|]. split; [left; reflexivity|].
     exists Gc. cbn [new_docs] in *. auto. }
   set (C := committed s) in *. set (P := se0 :: P0) in *.
   pose proof (vapply_fold P (pemb v) (C, [], []) (mem_index v) [] Hlen) as HVF.
@@ -373,7 +365,7 @@ Proof.
     - apply Forall_forall. intros d Hd. apply Hnew. exact Hd. }
   split; [reflexivity|]. split; [reflexivity|]. split; [constructor|]. split; [congruence|].
   unfold rebuild_indexes, build_vec_artifact. destruct (venabled v) eqn:Ev.
-  - cbn [venabled vmem vdisk pemb is_some]. split; [reflexivity|]. split; [left; reflexivity|]. split; [discriminate|].
+  - cbn [venabled vmem vdisk pemb is_some]. split; [reflexivity|]. split; [left; reflexivity|].
     exists (Gc ++ nd). split; [change (new_docs (len C') [] []) with (@nil (N * emb)); rewrite app_nil_r; exact HG|]. split; [exact HGc'|].
     unfold mem_docs at 1. unfold mem_index at 1. cbn [vmem index_of docs_of]. rewrite Hfilt. f_equal.
     rewrite <- Hold. fold C'.
@@ -381,9 +373,8 @@ Proof.
     { unfold mem_docs. destruct (mem_index v); cbn [omap docs_of]; [reflexivity|].
       generalize (targets P). intros ts. induction ts; cbn; auto. }
     rewrite Hd, Hmem. apply (filter_remove_all (frame_is_active C')). exact Hkill.
-  - cbn [venabled vmem vdisk pemb is_some]. split; [reflexivity|]. split; [left; reflexivity|]. split; [discriminate|].
-    assert (Hne : has_emb (pemb v) = false) by (destruct (has_emb (pemb v)); [specialize (Hemb eq_refl); congruence|reflexivity]).
-    assert (Hnd : nd = []) by (apply new_docs_no_emb; exact Hne).
+  - cbn [venabled vmem vdisk pemb is_some]. split; [reflexivity|]. split; [left; reflexivity|].
+    assert (Hnd : nd = []) by (apply Hdis; reflexivity).
     exists Gc. rewrite Hnd, app_nil_r in *. split; [exact HG|]. split; [exact HGc'|].
     unfold mem_docs at 1. unfold mem_index at 1. cbn [vmem index_of docs_of].
     assert (Hm0 : mem_docs v = []).
@@ -404,7 +395,7 @@ Lemma Inv_vfields s v v' G :
   venabled v' = venabled v -> vmem v' = vmem v -> pemb v' = pemb v ->
   (vdisk v' = vdisk v \/ vdisk v' = vmem v) -> Inv s v G -> Inv s v' G.
 Proof.
-  intros He Hm Hp Hd (HK & Hlen & Hrec & Hdirty & Hen & Hdisk & Hemb & Gc & HG & HGc & Hmem).
+  intros He Hm Hp Hd (HK & Hlen & Hrec & Hdirty & Hen & Hdisk & Gc & HG & HGc & Hmem).
   unfold Inv, mem_docs, mem_index in *. rewrite He, Hm, Hp. repeat split; auto.
   - destruct Hd as [Hd|Hd]; rewrite Hd; auto.
   - exists Gc. auto.
@@ -415,10 +406,11 @@ Proof. intros H. destruct g; cbn [grow]; [|exact H]. apply (Inv_vfields s v); au
 
 Lemma Inv_enable s v G : Inv s v G -> Inv s (enable_vec v) G.
 Proof.
-  intros (HK & Hlen & Hrec & Hdirty & Hen & Hdisk & Hemb & Gc & HG & HGc & Hmem).
+  intros (HK & Hlen & Hrec & Hdirty & Hen & Hdisk & Gc & HG & HGc & Hmem).
   unfold Inv, enable_vec, mem_docs, mem_index in *. cbn [venabled vmem vdisk pemb].
-  repeat split; auto.
-  - destruct (vmem v); reflexivity.
+  split; [exact HK|]. split; [exact Hlen|]. split; [exact Hrec|]. split; [exact Hdirty|].
+  split; [destruct (vmem v); reflexivity|].
+  split.
   - destruct (vmem v) eqn:E; [exact Hdisk|]. right. split; [|reflexivity].
     destruct Hdisk as [H|[H H']]; [exact H|discriminate].
   - exists Gc. repeat split; auto. destruct (vmem v) as [[d|]|]; exact Hmem.
@@ -430,31 +422,26 @@ Proof. intros H. unfold enable_if. destruct b; [|exact H]. destruct (venabled v)
 Lemma enable_if_enabled b v : b = true \/ venabled v = true -> venabled (enable_if b v) = true.
 Proof. unfold enable_if. intros [->|H]; [destruct (venabled v) eqn:E; [exact E|reflexivity]|destruct b; [rewrite H|]; exact H]. Qed.
 
-Lemma Inv_load s v G :
-  Inv s v G -> (has_emb (pemb v) = true -> is_some (vdisk v) = true) -> Inv s (load v) G.
+Lemma Inv_load s v G : Inv s v G -> Inv s (load v) G.
 Proof.
-  intros (HK & Hlen & Hrec & Hdirty & Hen & Hdisk & Hemb & Gc & HG & HGc & Hmem) Hl.
+  intros (HK & Hlen & Hrec & Hdirty & Hen & Hdisk & Gc & HG & HGc & Hmem).
   unfold Inv, load, mem_docs, mem_index in *. cbn [venabled vmem vdisk pemb].
-  repeat split; auto.
+  split; [exact HK|]. split; [exact Hlen|]. split; [exact Hrec|]. split; [exact Hdirty|].
+  split; [reflexivity|]. split; [left; reflexivity|].
   exists Gc. repeat split; auto.
   destruct Hdisk as [H|[H H']]; [rewrite H; exact Hmem|]. rewrite H. rewrite H' in Hmem. exact Hmem.
 Qed.
 
-Lemma has_emb_app a b : has_emb (a ++ b) = has_emb a || has_emb b.
-Proof. unfold has_emb. apply existsb_app. Qed.
-
 Lemma Inv_append s v G e oe :
-  Inv s v G -> tgt_lt (len (committed s)) e -> is_lex e = false ->
-  (is_some oe = true -> venabled v = true) -> (is_insert e = false -> oe = None) ->
+  Inv s v G -> tgt_lt (len (committed s)) e -> is_lex e = false -> (is_insert e = false -> oe = None) ->
   Inv (fst (append s e)) (add_pemb v [oe]) (G ++ (if is_insert e then opt_doc (next_frame_id s) oe else [])).
 Proof.
-  intros HI Ht Hlex Hoe Hins. pose proof HI as (HK & Hlen & Hrec & Hdirty & Hen & Hdisk & Hemb & Gc & HG & HGc & Hmem).
+  intros HI Ht Hlex Hins. pose proof HI as (HK & Hlen & Hrec & Hdirty & Hen & Hdisk & Gc & HG & HGc & Hmem).
   pose proof (K_append s e HK) as HK'.
   unfold Inv, append, add_pemb, mem_docs, mem_index in *. cbn [fst committed pending dirty pending_inserts venabled vmem vdisk pemb] in *.
   split; [exact HK'|]. split; [rewrite !app_length, Hlen; reflexivity|].
   split; [apply Forall_app; split; [exact Hrec|constructor; [split; assumption|constructor]]|].
   split; [reflexivity|]. split; [exact Hen|]. split; [exact Hdisk|].
-  split. { rewrite has_emb_app. intros H. apply orb_true_iff in H as [H|H]; [auto|]. unfold has_emb in H. cbn [existsb] in H. rewrite orb_false_r in H. auto. }
   exists Gc. split; [|split; assumption].
   rewrite (new_docs_app (pending s) (len (committed s)) (pemb v) [(seqno s + 1, e)] [oe] Hlen).
   rewrite HG, <- app_assoc. f_equal. f_equal. cbn [new_docs]. unfold next_frame_id. unfold K in HK. rewrite HK.
@@ -468,31 +455,30 @@ Lemma next_frame_id_append s e : next_frame_id (fst (append s e)) = next_frame_i
 Proof. unfold next_frame_id, append. cbn [fst committed pending_inserts]. destruct (is_insert e); lia. Qed.
 
 Lemma Inv_append_chunks n : forall s v G ps uk tag i l,
-  Inv s v G -> length l = n -> (forall oe, In oe l -> is_some oe = true -> venabled v = true) ->
+  Inv s v G -> length l = n ->
   Inv (append_chunks s ps uk tag i n) (add_pemb v l) (G ++ docs_from (next_frame_id s) l).
 Proof.
-  induction n as [|n IH]; intros s v G ps uk tag i l HI Hl Hen.
+  induction n as [|n IH]; intros s v G ps uk tag i l HI Hl.
   - destruct l; [|discriminate]. cbn [append_chunks docs_from]. rewrite app_nil_r.
     apply (Inv_vfields s v); auto. unfold add_pemb. cbn [pemb]. apply app_nil_r.
   - destruct l as [|oe l]; [discriminate|]. injection Hl as Hl. cbn [append_chunks docs_from].
     match goal with |- context [append s ?e] => set (e0 := e) end.
     pose proof (Inv_append s v G e0 oe HI) as H1.
     assert (Ht : tgt_lt (len (committed s)) e0) by (intros t []).
-    specialize (H1 Ht eq_refl (Hen oe (or_introl eq_refl)) ltac:(discriminate)).
+    specialize (H1 Ht eq_refl ltac:(discriminate)).
     destruct (append s e0) as [s1 sq] eqn:Ea. cbn [fst] in H1.
     change (is_insert e0) with true in H1. cbn iota in H1.
     assert (Hn : next_frame_id s1 = next_frame_id s + 1).
     { pose proof (next_frame_id_append s e0) as H. rewrite Ea in H. exact H. }
     specialize (IH s1 (add_pemb v [oe]) _ ps uk tag (S i) l H1 Hl).
-    rewrite add_pemb_add in IH. cbn [app] in IH. rewrite Hn, <- app_assoc in IH. apply IH.
-    intros oe' Hin Hs. unfold add_pemb. cbn [venabled]. apply (Hen oe'); [right; exact Hin|exact Hs].
+    rewrite add_pemb_add in IH. cbn [app] in IH. rewrite Hn, <- app_assoc in IH. exact IH.
 Qed.
 
 (* rebuild_indexes(&[], &[]) on a quiescent memory: vacuum, doctor without the vec flag *)
 Lemma Inv_rebuild_only s v G frames :
   Inv s v G -> pending s = [] -> frames = committed s -> Inv s (rebuild_indexes v frames (mem_index v) []) G.
 Proof.
-  intros (HK & Hlen & Hrec & Hdirty & Hen & Hdisk & Hemb & Gc & HG & HGc & Hmem) Hp ->.
+  intros (HK & Hlen & Hrec & Hdirty & Hen & Hdisk & Gc & HG & HGc & Hmem) Hp ->.
   unfold Inv, rebuild_indexes, build_vec_artifact. rewrite app_nil_r.
   destruct (venabled v) eqn:Ev; unfold mem_docs at 1, mem_index at 1; cbn [venabled vmem vdisk pemb is_some index_of docs_of].
   - repeat split; auto. exists Gc. repeat split; auto.
@@ -508,7 +494,7 @@ Lemma carried_is_given s v G target :
   Inv s v G -> frame_is_active (committed s) target = true ->
   (if venabled v then embedding_for (mem_docs v) target else None) = embedding_for G target.
 Proof.
-  intros (HK & Hlen & Hrec & Hdirty & Hen & Hdisk & Hemb & Gc & HG & HGc & Hmem) Hact.
+  intros (HK & Hlen & Hrec & Hdirty & Hen & Hdisk & Gc & HG & HGc & Hmem) Hact.
   pose proof (act_lt _ _ Hact) as Hlt.
   assert (HGt : embedding_for G target = embedding_for Gc target).
   { rewrite HG. apply embedding_for_app_out. intros d Hd. apply new_docs_range in Hd. lia. }
@@ -518,30 +504,63 @@ Proof.
   rewrite <- Hf. unfold mem_docs, mem_index. rewrite Hen in Ev. destruct (vmem v); [discriminate|reflexivity].
 Qed.
 
+(* ---------- commit_from_records as repaired (8099cac) ---------- *)
+Lemma mem_index_enable v : mem_index (enable_vec v) = mem_index v.
+Proof. unfold mem_index, enable_vec. cbn [vmem]. destruct (vmem v) as [[d|]|]; reflexivity. Qed.
+
+Lemma Inv_commit s v G extra :
+  Inv s v G -> Inv (do_commit s extra) (vcommit (committed s) (pending s) v) G.
+Proof.
+  intros HI. pose proof HI as (_ & Hlen & _).
+  pose proof (vapply_fold (pending s) (pemb v) (committed s, [], []) (mem_index v) [] Hlen) as HVF.
+  cbn [app] in HVF. unfold st_frames in HVF at 1. cbn [fst] in HVF.
+  set (nd := new_docs (len (committed s)) (pending s) (pemb v)) in *.
+  set (v0 := if negb (is_nil nd) && negb (venabled v) then enable_vec v else v).
+  assert (HE : vcommit (committed s) (pending s) v = vcommit_unfixed (committed s) (pending s) v0).
+  { unfold vcommit, vcommit_unfixed.
+    assert (Hp : pemb v0 = pemb v) by (unfold v0; destruct (negb (is_nil nd) && negb (venabled v)); reflexivity).
+    assert (Hm : mem_index v0 = mem_index v) by (unfold v0; destruct (negb (is_nil nd) && negb (venabled v)); [apply mem_index_enable|reflexivity]).
+    rewrite Hp, Hm.
+    match goal with |- context [fold_left vapply_entry ?x ?y] => replace (fold_left vapply_entry x y) with
+      (fold_left apply_entry (pending s) (committed s, [], []), omap (remove_all (targets (pending s))) (mem_index v), nd) by (symmetry; exact HVF) end.
+    reflexivity. }
+  rewrite HE. apply Inv_commit_core.
+  - unfold v0. destruct (negb (is_nil nd) && negb (venabled v)); [apply Inv_enable|]; exact HI.
+  - assert (Hp : pemb v0 = pemb v) by (unfold v0; destruct (negb (is_nil nd) && negb (venabled v)); reflexivity).
+    rewrite Hp. fold nd. unfold v0. destruct nd as [|d nd'] eqn:End; [reflexivity|].
+    cbn [is_nil negb andb]. destruct (venabled v) eqn:Ev; cbn [negb]; [rewrite Ev; discriminate|cbn [enable_vec venabled]; discriminate].
+Qed.
+
+(* before 8099cac a replay with vec disabled (the manifest never reached the file) dropped every
+   embedding of the batch: the index after the commit is empty and vec stays disabled *)
+Lemma vcommit_unfixed_drops frames recs v :
+  venabled v = false -> delta_nonempty recs = true ->
+  mem_docs (vcommit_unfixed frames recs v) = [] /\ venabled (vcommit_unfixed frames recs v) = false.
+Proof.
+  intros Hv Hd. unfold vcommit_unfixed. destruct (fold_left vapply_entry _ _) as [[a idx] nd].
+  rewrite Hd. unfold rebuild_indexes, build_vec_artifact. rewrite Hv. split; reflexivity.
+Qed.
+
+(* doctor's vector rebuild as repaired (83a83e8): vec forced on, the loaded index re-encoded *)
+Lemma Inv_rebuild_force s v G frames :
+  Inv s v G -> pending s = [] -> frames = committed s ->
+  Inv s (rebuild_indexes (mkV true (vmem v) (vdisk v) (pemb v)) frames (mem_index v) []) G.
+Proof.
+  intros (HK & Hlen & Hrec & Hdirty & Hen & Hdisk & Gc & HG & HGc & Hmem) Hp ->.
+  unfold Inv, rebuild_indexes, build_vec_artifact. rewrite app_nil_r.
+  cbn [venabled vmem vdisk pemb is_some].
+  split; [exact HK|]. split; [exact Hlen|]. split; [exact Hrec|]. split; [exact Hdirty|].
+  split; [reflexivity|]. split; [left; reflexivity|].
+  exists Gc. split; [exact HG|]. split; [exact HGc|].
+  unfold mem_docs at 1, mem_index at 1. cbn [vmem index_of docs_of].
+  change (docs_of (mem_index v)) with (mem_docs v). rewrite Hmem.
+  apply (filter_filter_mono (actp (committed s)) (actp (committed s))). auto.
+Qed.
+
 (* ---------- one operation ---------- *)
 Lemma pemb_quiet s v G : Inv s v G -> pending s = [] -> pemb v = [].
 Proof. intros (_ & Hlen & _) Hp. rewrite Hp in Hlen. destruct (pemb v); [reflexivity|discriminate]. Qed.
 
-Lemma Inv_load_quiet s v G : Inv s v G -> pending s = [] -> Inv s (load v) G.
-Proof. intros HI Hp. apply Inv_load; [exact HI|]. rewrite (pemb_quiet s v G HI Hp). discriminate. Qed.
-
-Lemma emb_in_enables i n oe :
-  emb_ok_info i = true -> In oe (info_parent i :: chunk_embs (info_chunks i) n) -> is_some oe = true ->
-  incoming_dimension (info_parent i) (info_chunks i) = true.
-Proof.
-  intros Hok Hin Hs. unfold incoming_dimension.
-  destruct i as [|p c g|e g|g| |b]; cbn [info_parent info_chunks emb_ok_info] in *;
-    try (destruct Hin as [<-|Hin]; [discriminate|unfold chunk_embs in Hin; apply in_map_iff in Hin as (k & <- & _); discriminate]).
-  apply andb_true_iff in Hok as [Hp Hc].
-  destruct Hin as [<-|Hin].
-  - destruct p; [|discriminate]. rewrite Hp. reflexivity.
-  - unfold chunk_embs in Hin. apply in_map_iff in Hin as (k & Hk & _).
-    destruct c as [l|]; [|subst oe; discriminate].
-    destruct oe as [e|]; [|discriminate]. apply nth_error_In in Hk.
-    rewrite forallb_forall in Hc. specialize (Hc e Hk).
-    assert (existsb nonempty l = true) by (apply existsb_exists; exists e; auto).
-    rewrite H. apply orb_true_r.
-Qed.
 
 Lemma chunk_embs_length c n : length (chunk_embs c n) = n.
 Proof. unfold chunk_embs. rewrite map_length, seq_length. reflexivity. Qed.
@@ -551,10 +570,10 @@ Lemma given_other R G op i o :
 Proof. intros H. unfold given_step. destruct (negb (acked (fst o))); [reflexivity|]. destruct op; try reflexivity; destruct H. Qed.
 
 Lemma vtrans_inv s v R G op i ob :
-  J s R -> Inv s v G -> emb_ok_info i = true -> lossy (s, v) (VOp op i) = false ->
+  J s R -> Inv s v G ->
   Inv (fst (sstep s op)) (vtrans s op i v) (given_step R G (VOp op i, (snd (sstep s op), ob))).
 Proof.
-  intros HJ HI Hemb Hloss.
+  intros HJ HI.
   pose proof HI as (HK & Hlen & Hrec & Hdirty & _).
   pose proof (next_frame_id_is_view_length s R HJ HK) as Hnid.
   destruct op as [uk tag nchunks role auto|target newtag uk auto|target auto|extra|extra|extra|newseq]; unfold vtrans; cbn [no_auto].
@@ -562,22 +581,19 @@ Proof.
     cbn [sstep]. destruct (append s _) as [s1 sq] eqn:Ea. cbn [fst snd auto_commit].
     unfold given_step. cbn [fst]. rewrite observe_acked. cbn [negb].
     set (b := incoming_dimension (info_parent i) (info_chunks i)).
-    set (l := chunk_embs (info_chunks i) (N.to_nat nchunks)).
+    set (l := map norm (chunk_embs (info_chunks i) (N.to_nat nchunks))).
+    assert (Hll : length l = N.to_nat nchunks) by (unfold l; rewrite map_length; apply chunk_embs_length).
     assert (H0 : Inv s (enable_if b v) G) by (apply Inv_enable_if; exact HI).
-    assert (He : forall oe, In oe (info_parent i :: l) -> is_some oe = true -> venabled (enable_if b v) = true).
-    { intros oe Hin Hs. apply enable_if_enabled. left. apply (emb_in_enables i (N.to_nat nchunks) oe); assumption. }
     match type of Ea with append s ?e = _ => set (e0 := e) in * end.
-    pose proof (Inv_append s _ G e0 (info_parent i) H0) as H1.
-    specialize (H1 ltac:(intros t []) eq_refl (He _ (or_introl eq_refl)) ltac:(discriminate)).
+    pose proof (Inv_append s _ G e0 (norm (info_parent i)) H0) as H1.
+    specialize (H1 ltac:(intros t []) eq_refl ltac:(discriminate)).
     rewrite Ea in H1. cbn [fst] in H1. change (is_insert e0) with true in H1. cbn iota in H1.
     assert (Hn : next_frame_id s1 = next_frame_id s + 1).
     { pose proof (next_frame_id_append s e0) as H. rewrite Ea in H. exact H. }
-    pose proof (Inv_append_chunks (N.to_nat nchunks) s1 _ _ sq uk tag 0%nat l H1 (chunk_embs_length _ _)) as H2.
-    rewrite add_pemb_add in H2. cbn [app] in H2. rewrite Hn, <- app_assoc, Hnid in H2.
-    assert (H3 : Inv (append_chunks s1 sq uk tag 0 (N.to_nat nchunks)) (add_pemb (enable_if b v) (info_parent i :: l))
-                     (G ++ docs_from (len R) (info_parent i :: l))).
-    { apply H2. intros oe Hin Hs. unfold add_pemb. cbn [venabled]. apply (He oe); [right; exact Hin|exact Hs]. }
-    clear H2. apply (Inv_grow _ _ _ (info_grew i)) in H3.
+    pose proof (Inv_append_chunks (N.to_nat nchunks) s1 _ _ sq uk tag 0%nat l H1 Hll) as H3.
+    rewrite add_pemb_add in H3. cbn [app] in H3. rewrite Hn, <- app_assoc, Hnid in H3.
+    change (opt_doc (len R) (norm (info_parent i)) ++ docs_from (len R + 1) l) with (docs_from (len R) (norm (info_parent i) :: l)) in H3.
+    apply (Inv_grow _ _ _ (info_grew i)) in H3.
     destruct auto as [extra|]; cbn [auto_commit vauto]; [apply Inv_commit|]; exact H3.
   - (* update *)
     cbn [sstep]. unfold accepted.
@@ -595,18 +611,13 @@ Proof.
     rewrite Heff.
     set (b := incoming_dimension eff None).
     assert (H0 : Inv s (enable_if b v) G) by (apply Inv_enable_if; exact HI).
-    assert (He : is_some eff = true -> venabled (enable_if b v) = true).
-    { intros Hs. apply enable_if_enabled. unfold b, eff in *. unfold incoming_dimension.
-      destruct i as [|p c g|[e|] g|g| |bb]; cbn [info_explicit emb_ok_info] in *;
-        try (destruct (venabled v); [right; reflexivity|discriminate]).
-      left. rewrite Hemb. reflexivity. }
     match type of Ea with append s ?e = _ => set (e0 := e) in * end.
-    pose proof (Inv_append s _ G e0 eff H0) as H1.
+    pose proof (Inv_append s _ G e0 (norm eff) H0) as H1.
     assert (Ht : tgt_lt (len (committed s)) e0).
     { unfold e0. destruct newtag; intros t [<-|[]]; exact Hlt. }
     assert (Hi1 : is_insert e0 = true) by (unfold e0; destruct newtag; reflexivity).
     assert (Hl1 : is_lex e0 = false) by (unfold e0; destruct newtag; reflexivity).
-    specialize (H1 Ht Hl1 He ltac:(rewrite Hi1; discriminate)).
+    specialize (H1 Ht Hl1 ltac:(rewrite Hi1; discriminate)).
     rewrite Ea in H1. cbn [fst] in H1. rewrite Hi1, Hnid in H1.
     apply (Inv_grow _ _ _ (info_grew i)) in H1.
     destruct auto as [extra|]; cbn [auto_commit vauto]; [apply Inv_commit|]; exact H1.
@@ -619,7 +630,7 @@ Proof.
     pose proof (act_lt _ _ Hact) as Hlt.
     destruct (append s _) as [s1 sq] eqn:Ea. cbn [fst snd auto_commit].
     pose proof (Inv_append s v G (ETomb target) None HI) as H1.
-    specialize (H1 ltac:(intros t [<-|[]]; exact Hlt) eq_refl ltac:(discriminate) ltac:(reflexivity)).
+    specialize (H1 ltac:(intros t [<-|[]]; exact Hlt) eq_refl ltac:(reflexivity)).
     rewrite Ea in H1. cbn [fst is_insert] in H1. rewrite app_nil_r in H1.
     apply (Inv_grow _ _ _ (info_grew i)) in H1.
     destruct auto as [extra|]; cbn [auto_commit vauto]; [apply Inv_commit|]; exact H1.
@@ -639,21 +650,18 @@ Proof.
   - (* reopen *)
     rewrite given_other by exact I. cbn [sstep fst].
     destruct (dirty s) eqn:Ed.
-    + cbn [do_commit pending]. apply Inv_load_quiet; [|reflexivity]. apply Inv_commit. exact HI.
+    + cbn [do_commit pending]. apply Inv_load. apply Inv_commit. exact HI.
     + assert (Ep : pending s = []) by (destruct (pending s); [reflexivity|specialize (Hdirty ltac:(discriminate)); congruence]).
-      cbn [bump pending]. rewrite Ep. apply Inv_load_quiet; [|exact Ep]. apply (Inv_same_store s); auto.
+      cbn [bump pending]. rewrite Ep. apply Inv_load. apply (Inv_same_store s); auto.
   - (* crash + replay *)
     rewrite given_other by exact I. cbn [sstep fst].
-    cbn [lossy] in Hloss.
-    assert (H0 : Inv s (load v) G).
-    { apply Inv_load; [exact HI|]. intros Hh. rewrite Hh, andb_true_r in Hloss. destruct (is_some (vdisk v)); [reflexivity|discriminate]. }
+    assert (H0 : Inv s (load v) G) by (apply Inv_load; exact HI).
     destruct (pending s) eqn:Ep.
     + apply (Inv_same_store s); auto; cbn [committed pending pending_inserts]; auto.
       unfold K in HK. rewrite Ep in HK. rewrite HK. reflexivity.
     + rewrite <- Ep. apply Inv_commit. exact H0.
   - (* doctor *)
     rewrite given_other by exact I. cbn [sstep fst].
-    cbn [lossy] in Hloss.
     assert (H1 : Inv (if dirty s then do_commit s 0 else s) (if dirty s then vcommit (committed s) (pending s) v else v) G
                  /\ pending (if dirty s then do_commit s 0 else s) = []
                  /\ view s = committed (if dirty s then do_commit s 0 else s)).
@@ -665,13 +673,13 @@ Proof.
     set (s1 := if dirty s then do_commit s 0 else s) in *.
     set (v1 := if dirty s then vcommit (committed s) (pending s) v else v) in *.
     rewrite Hp1.
-    assert (H2 : Inv s1 (load v1) G) by (apply Inv_load_quiet; assumption).
-    unfold doctor_vec. rewrite Hloss.
+    assert (H2 : Inv s1 (load v1) G) by (apply Inv_load; assumption).
+    unfold doctor_vec.
     set (v3 := if bit (info_bits i) 3 then rebuild_indexes (load v1) (view s) (mem_index (load v1)) [] else load v1).
     assert (H3 : Inv s1 v3 G) by (unfold v3; destruct (bit (info_bits i) 3); [apply Inv_rebuild_only; assumption|exact H2]).
-    assert (H4 : Inv s1 (if bit (info_bits i) 0 || bit (info_bits i) 1 then rebuild_indexes v3 (view s) (mem_index v3) [] else v3) G).
-    { destruct (bit (info_bits i) 0 || bit (info_bits i) 1); [apply Inv_rebuild_only; assumption|exact H3]. }
-    apply (Inv_same_store s1); auto. apply Inv_load_quiet; assumption.
+    apply (Inv_same_store s1); auto. apply Inv_load.
+    destruct (bit (info_bits i) 2); [apply Inv_rebuild_force; assumption|].
+    destruct (bit (info_bits i) 0 || bit (info_bits i) 1); [apply Inv_rebuild_only; assumption|exact H3].
 Qed.
 
 (* ---------- whole histories ---------- *)
@@ -688,18 +696,15 @@ Fixpoint vrun_ok (R : list frame) (xs : list (vop * vout)) : bool :=
 Theorem vrun_inv : forall ops s v R G,
   J s R -> Inv s v G ->
   vrun_ok R (combine ops (snd (vrun (s, v) ops))) = true ->
-  forallb emb_ok ops = true ->
-  known_class_from (s, v) ops = false ->
   J (fst (fst (vrun (s, v) ops))) (fst (vref_run (R, G) (combine ops (snd (vrun (s, v) ops))))) /\
   Inv (fst (fst (vrun (s, v) ops))) (snd (fst (vrun (s, v) ops))) (snd (vref_run (R, G) (combine ops (snd (vrun (s, v) ops))))).
 Proof.
-  induction ops as [|x ops IH]; intros s v R G HJ HI Hok Hemb Hk; [cbn; auto|].
-  cbn [vrun known_class_from forallb] in *.
-  apply orb_false_iff in Hk as [Hl Hk]. apply andb_true_iff in Hemb as [He Hemb].
+  induction ops as [|x ops IH]; intros s v R G HJ HI Hok; [cbn; auto|].
+  cbn [vrun] in *.
   destruct x as [op i|].
   - cbn [vstep] in *.
     pose proof (sstep_refines s R op HJ) as HS.
-    pose proof (vtrans_inv s v R G op i (observe_vec (vtrans s op i v)) HJ HI He Hl) as HT.
+    pose proof (vtrans_inv s v R G op i (observe_vec (vtrans s op i v)) HJ HI) as HT.
     destruct (sstep s op) as [s1 o] eqn:Es. cbn [fst snd] in *.
     destruct (vrun (s1, vtrans s op i v) ops) as [st2 os] eqn:Er. cbn [fst snd combine vrun_ok sop_of] in *.
     apply andb_true_iff in Hok as [H1 H2].
@@ -725,28 +730,26 @@ Lemma membership_aux s v R G :
 Proof.
   intros HJ HI Hp.
   assert (HC : committed s = R) by (rewrite <- (quiescent_committed s Hp); apply J_view; exact HJ).
-  destruct HI as (_ & Hlen & _ & _ & Hen & _ & _ & Gc & HG & _ & Hmem).
+  destruct HI as (_ & Hlen & _ & _ & Hen & _ & Gc & HG & _ & Hmem).
   rewrite Hp in HG. cbn [new_docs] in HG. rewrite app_nil_r in HG. subst Gc.
   rewrite HC in Hmem. split; [exact HC|]. split; [exact Hmem|].
   intros Hv. unfold expected_docs. fold (actp R). rewrite <- Hmem.
   unfold mem_docs, mem_index. rewrite Hen in Hv. destruct (vmem v); [discriminate|reflexivity].
 Qed.
 
-(* C14, outside the two lossy situations: whenever nothing is pending (after commit, reopen,
-   replay, vacuum, doctor, automatic checkpoint) the index holds exactly the embeddings given
-   to the active frames, in frame order. *)
-Theorem membership_outside_known ops :
+(* C14: whenever nothing is pending (after commit, reopen, replay, vacuum, doctor, automatic
+   checkpoint) the index holds exactly the embeddings given to the active frames, in frame order *)
+Theorem membership ops :
   let r := vrun vstate0 ops in
   let s := fst (fst r) in let v := snd (fst r) in
   let xs := combine ops (snd r) in
   let R := fst (vref_run ([], []) xs) in let G := snd (vref_run ([], []) xs) in
-  vrun_ok [] xs = true -> forallb emb_ok ops = true -> known_class ops = false ->
-  pending s = [] ->
+  vrun_ok [] xs = true -> pending s = [] ->
   committed s = R /\ mem_docs v = expected_docs R G /\
   (venabled v = false -> expected_docs R G = []).
 Proof.
-  intros r s v xs R G Hok Hemb Hk Hp.
-  destruct (vrun_inv ops store0 vst0 [] [] J0 Inv0 Hok Hemb Hk) as [HJ HI].
+  intros r s v xs R G Hok Hp.
+  destruct (vrun_inv ops store0 vst0 [] [] J0 Inv0 Hok) as [HJ HI].
   apply (membership_aux s v R G HJ HI Hp).
 Qed.
 
@@ -760,7 +763,18 @@ Proof.
   - destruct (a =? f) eqn:E; [assert (a = f) by lia; subst; rewrite Ea in *; rewrite IH; reflexivity|exact IH].
 Qed.
 
-(* doctor with rebuild_vec_index always leaves an enabled, empty index *)
-Lemma doctor_vec_wipes bits frames v :
-  bit bits 2 = true -> mem_docs (load (doctor_vec bits frames v)) = [] /\ venabled (load (doctor_vec bits frames v)) = true.
-Proof. intros H. unfold doctor_vec. rewrite H. split; reflexivity. Qed.
+(* before 83a83e8: doctor with rebuild_vec_index always left an enabled, empty index *)
+Lemma doctor_vec_wipes_unfixed bits frames v :
+  bit bits 2 = true ->
+  mem_docs (load (doctor_vec_unfixed bits frames v)) = [] /\ venabled (load (doctor_vec_unfixed bits frames v)) = true.
+Proof. intros H. unfold doctor_vec_unfixed. rewrite H. split; reflexivity. Qed.
+
+(* as repaired: the doctored index is the old one restricted to the active frames *)
+Lemma doctor_vec_keeps bits frames v :
+  bit bits 2 = true -> bit bits 3 = false ->
+  mem_docs (load (doctor_vec bits frames v)) = filter (fun d => frame_is_active frames (fst d)) (mem_docs v) /\
+  venabled (load (doctor_vec bits frames v)) = true.
+Proof.
+  intros H2 H3. unfold doctor_vec. rewrite H2, H3. unfold rebuild_indexes, build_vec_artifact. cbn [venabled].
+  rewrite app_nil_r. split; reflexivity.
+Qed.
